@@ -1,36 +1,63 @@
 #!/venv/bin/python
-"""Apply every candidate/kept seeded change to a scratch worktree of /repo HEAD and
-report which property checks fire.  usage: seedtest.py <dir with */patch.diff> [props...]"""
-import subprocess, sys, os, json, glob, shutil, tempfile
-root = sys.argv[1]
-props = sys.argv[2:] or None
-sys.path.insert(0, "/verif")
-from sa import props as P
-allp = sorted(P.PROPS)
-wt = tempfile.mkdtemp(prefix="seedwt_", dir="/tmp")
-os.rmdir(wt)
-subprocess.run(["git", "-C", "/repo", "worktree", "add", "-q", "--detach", wt, "HEAD"], check=True)
-try:
-    for patch in sorted(glob.glob(os.path.join(root, "**", "patch.diff"), recursive=True)):
-        sid = os.path.relpath(os.path.dirname(patch), root)
+"""Apply every candidate/kept change under <dir> (*/patch.diff) to a scratch worktree of /repo HEAD and report which
+property checks fire (one process per change, all checks in it: sa.multi).
+usage: seedtest.py <dir with */patch.diff> [--jobs N] [props...]"""
+import subprocess, sys, os, glob, tempfile
+from concurrent.futures import ThreadPoolExecutor
+import queue
+
+args = sys.argv[1:]
+jobs = 8
+if "--jobs" in args:
+    i = args.index("--jobs")
+    jobs = int(args[i + 1])
+    del args[i:i + 2]
+root = args[0]
+props = args[1:]
+
+patches = sorted(glob.glob(os.path.join(root, "**", "patch.diff"), recursive=True))
+jobs = max(1, min(jobs, len(patches)))
+pool = queue.Queue()
+wts = []
+for _ in range(jobs):
+    wt = tempfile.mkdtemp(prefix="seedwt_", dir="/tmp")
+    os.rmdir(wt)
+    subprocess.run(["git", "-C", "/repo", "worktree", "add", "-q", "--detach", wt, "HEAD"], check=True)
+    wts.append(wt)
+    pool.put(wt)
+
+
+def one(patch):
+    sid = os.path.relpath(os.path.dirname(patch), root)
+    wt = pool.get()
+    try:
         subprocess.run(["git", "-C", wt, "reset", "-q", "--hard", "HEAD"], check=True)
         subprocess.run(["git", "-C", wt, "clean", "-fdq"], check=True)
         r = subprocess.run(["git", "-C", wt, "apply", patch], capture_output=True, text=True)
         if r.returncode != 0:
             r = subprocess.run(["patch", "-p1", "-F3", "-s", "-d", wt, "-i", patch], capture_output=True, text=True)
             if r.returncode != 0:
-                print("%-12s APPLY-FAILED %s" % (sid, (r.stdout + r.stderr).strip().splitlines()[-1] if (r.stdout + r.stderr) else ""))
-                continue
+                return "%-12s APPLY-FAILED %s" % (sid, (r.stdout + r.stderr).strip().splitlines()[-1] if (r.stdout + r.stderr) else "")
+        rr = subprocess.run(["/venv/bin/python", "-W", "ignore", "-m", "sa.multi", "--repo", wt] + props, cwd="/verif", capture_output=True, text=True)
         fired = []
-        for p in (props or allp):
-            env = dict(os.environ, EON_REPO=wt)
-            rr = subprocess.run(["/venv/bin/python", "-W", "ignore", "-m", "sa.run", p, "--repo", wt], cwd="/verif", capture_output=True, text=True, env=env)
-            if rr.returncode == 1:
-                rules = sorted({l.split("[")[1].split("]")[0] for l in rr.stdout.splitlines() if l.startswith("FINDING") and "[" in l})
-                fired.append("%s(%s)" % (p, ",".join(rules)))
-            elif rr.returncode != 0:
-                fired.append("%s(ERR:%s)" % (p, rr.stdout.strip().splitlines()[-1][:80] if rr.stdout.strip() else rr.stderr[-80:]))
-        print("%-12s %s" % (sid, " ".join(fired) if fired else "-- missed --"))
+        eq = ""
+        for l in rr.stdout.splitlines():
+            if l.startswith("EQUIVALENT"):
+                eq = l.split(" ", 1)[1]
+            elif " rc=" in l:
+                p, rc, rules = (l.split(" ", 2) + [""])[:3]
+                fired.append("%s(%s)" % (p, rules if rc == "rc=1" else "ERR:" + rules[:70]))
+        if rr.returncode != 0 and not fired:
+            fired.append("HARNESS-ERROR " + rr.stderr[-300:])
+        return "%-12s %s%s" % (sid, " ".join(fired) if fired else "-- silent --", ("   [refactor of reference: %s]" % eq) if eq not in ("", "{}") else "")
+    finally:
+        pool.put(wt)
+
+
+try:
+    with ThreadPoolExecutor(jobs) as ex:
+        for line in ex.map(one, patches):
+            print(line, flush=True)
 finally:
-    subprocess.run(["git", "-C", "/repo", "worktree", "remove", "--force", wt])
-    # evidence files were rewritten against the scratch tree: restore by rerunning is the caller's job
+    for wt in wts:
+        subprocess.run(["git", "-C", "/repo", "worktree", "remove", "--force", wt])
